@@ -779,14 +779,18 @@ class x86allmncs(object):
             ad = tuple(self.modrm_key(ad))
             if not ad in self.fd_afs:
                 self.fd_afs[ad] = []
-            self.fd_afs[ad].append((i, None))
+            # reverse table: only the ModRM byte whose reg field is 0
+            # (forge_opc ORs the reg field of the other operand into it)
+            if (i>>3)&7 == 0:
+                self.fd_afs[ad].append((i, None))
             # XMM
             ad = {x86_afs.ad:False, x86_afs.reg_xmm_base+(i%8):1}
             self.db_afs_xmm[i] = ad
             ad = tuple(self.modrm_key(ad))
             if not ad in self.fd_afs:
                 self.fd_afs[ad] = []
-            self.fd_afs[ad].append((i, None))
+            if (i>>3)&7 == 0:
+                self.fd_afs[ad].append((i, None))
 
         #16bit
         self.db_afs_16 = [None for i in range(0x100)]
